@@ -141,7 +141,7 @@ def run(M, rep, tier, only=None):
         first = True
         nbad = 0
         for (pre, u, w), ps in sorted(groups.items(), key=lambda kv: -len(kv[1])):
-            reps = ints + (slices_full if first else slices_small)
+            reps = ints + (slices_full if (first or tier == "thorough") else slices_small)
             first = False
             relevant = {id(p): [(a, v) for a, v in p.decisions if any(x == u or x == w for x in subterms(a))] for p in ps}
             for win in windows:
